@@ -461,27 +461,30 @@ Print Assumptions C01_dedup_keeps_collection.
 
 (* a removal whose own mutation the caching feed deduplicated (its sequence is only listed in
    recent_sequences, still expected by the cache or already skipped) is reconstructed and reaches the
-   cache of the channel the document left, as the removal entry the channel query returns *)
-Theorem C01_dedup_delivers_removal : forall coll doc sd next skipped c s rv,
-  In (c, Some (s, rv)) (sd_chans sd) ->
-  (forall c' rv', In (c', Some (s, rv')) (sd_chans sd) -> rv' = rv) ->
+   cache of the channel the document left, with the sequence and revision the channel query returns
+   -- but never with the Deleted flag: for a deduplicated DELETION the statement "it is the entry the
+   query returns" is false in the unchanged code (C01_Refuted.v, monitor signature
+   dedup_reconstruction/deduplicated-deletion-removal-lacks-deleted-flag) *)
+Theorem C01_dedup_delivers_removal : forall coll doc sd next skipped c s rv dl,
+  In (c, Some (s, rv, dl)) (sd_chans sd) ->
+  (forall c' rv' dl', In (c', Some (s, rv', dl')) (sd_chans sd) -> rv' = rv) ->
   In s (sd_recent sd) -> s < current_seq sd ->
   (next <= s \/ In s skipped) ->
-  In (coll, c, (s, doc, rv, true)) (flat_map to_caches (doc_changed coll doc sd next skipped)).
+  In (coll, c, (s, doc, rv, true, false)) (flat_map to_caches (doc_changed coll doc sd next skipped)).
 Proof. exact dedup_delivers_removal. Qed.
 Print Assumptions C01_dedup_delivers_removal.
 
 Theorem C01_dedup_delivers_current : forall coll doc sd next skipped c,
   In (c, None) (sd_chans sd) ->
-  In (coll, c, (sd_seq sd, doc, sd_rev sd, false)) (flat_map to_caches (doc_changed coll doc sd next skipped)).
+  In (coll, c, (sd_seq sd, doc, sd_rev sd, false, sd_del sd)) (flat_map to_caches (doc_changed coll doc sd next skipped)).
 Proof. exact dedup_delivers_current. Qed.
 Print Assumptions C01_dedup_delivers_current.
 
 (* nothing is invented: the current revision for a channel of the document's map, or a removal the map records *)
-Theorem C01_dedup_sound : forall coll doc sd next skipped coll' c s d rv rm,
-  In (coll', c, (s, d, rv, rm)) (flat_map to_caches (doc_changed coll doc sd next skipped)) ->
-  d = doc /\ ((s = sd_seq sd /\ rv = sd_rev sd /\ exists r, In (c, r) (sd_chans sd)) \/
-              (rm = true /\ exists rv', In (c, Some (s, rv')) (sd_chans sd))).
+Theorem C01_dedup_sound : forall coll doc sd next skipped coll' c s d rv rm dl,
+  In (coll', c, (s, d, rv, rm, dl)) (flat_map to_caches (doc_changed coll doc sd next skipped)) ->
+  d = doc /\ ((s = sd_seq sd /\ rv = sd_rev sd /\ dl = sd_del sd /\ exists r, In (c, r) (sd_chans sd)) \/
+              (rm = true /\ dl = false /\ exists rv' dl', In (c, Some (s, rv', dl')) (sd_chans sd))).
 Proof. exact dedup_sound. Qed.
 Print Assumptions C01_dedup_sound.
 
